@@ -209,6 +209,10 @@ struct SetAd {
   void traverse(Traversal& tr, int erase_at, int variant, const Recorder& rec, int tid) {
     tr.start = xrt::stamp();
     int n = 0;
+    // the erase(iterator) of a traversal acts on the element the iterator arrived at earlier: its operation interval starts when
+    // the iterator was moved there (another thread may remove / re-insert that key between the arrival and the erase call)
+    OpRec arrive;
+    rec.begin(arrive);
     auto it = c.begin();
     while (it != c.end()) {
       int k = *it;
@@ -220,18 +224,24 @@ struct SetAd {
         tr.erase_op.a = k;
         tr.erase_op.b = 0;
         tr.erase_op.r = 1;
-        rec.begin(tr.erase_op);
+        tr.erase_op.call = arrive.call;
+        tr.erase_op.cvc = arrive.cvc;
         it = c.erase(std::move(it));
         rec.end(tr.erase_op);
+        rec.begin(arrive);
       } else if (variant == 1) {
+        rec.begin(arrive);
         auto copy = it; // copies hold their own guards
         ++it;
         if (*copy != k)
           tr.error = "copied iterator changed its element";
       } else if (variant == 2) {
+        rec.begin(arrive);
         it++;
-      } else
+      } else {
+        rec.begin(arrive);
         ++it;
+      }
       ++n;
       if (n > 64) {
         tr.error = "traversal does not terminate (more than 64 yields)";
@@ -321,6 +331,10 @@ struct MapAd {
   void traverse(Traversal& tr, int erase_at, int variant, const Recorder& rec, int tid) {
     tr.start = xrt::stamp();
     int n = 0;
+    // the erase(iterator) of a traversal acts on the element the iterator arrived at earlier: its operation interval starts when
+    // the iterator was moved there (another thread may remove / re-insert that key between the arrival and the erase call)
+    OpRec arrive;
+    rec.begin(arrive);
     auto it = c.begin();
     while (it != c.end()) {
       int k = ki(it->first);
@@ -333,18 +347,24 @@ struct MapAd {
         tr.erase_op.a = k;
         tr.erase_op.b = v;
         tr.erase_op.r = 1;
-        rec.begin(tr.erase_op);
+        tr.erase_op.call = arrive.call;
+        tr.erase_op.cvc = arrive.cvc;
         it = c.erase(std::move(it));
         rec.end(tr.erase_op);
+        rec.begin(arrive);
       } else if (variant == 1) {
+        rec.begin(arrive);
         auto copy = it;
         ++it;
         if (ki(copy->first) != k || copy->second != v)
           tr.error = "copied iterator changed its element";
       } else if (variant == 2) {
+        rec.begin(arrive);
         it++;
-      } else
+      } else {
+        rec.begin(arrive);
         ++it;
+      }
       ++n;
       if (n > 64) {
         tr.error = "traversal does not terminate (more than 64 yields)";
